@@ -517,6 +517,35 @@ class Gen:
         for sc in S.scopes():
             for lf in sc.leaves:
                 lf.type = self.make_ref(S, sc, maxdepth=MAXCHAIN + 1)
+                if lf.type.kind in INTS and rnd.random() < 0.5:
+                    lf.type.range = self.rich_range(lf.type)
+
+    def parent_bounds(self, t):
+        """the set the range of t's parent denotes (chains carry the canonical a..b texts)"""
+        x = t.target
+        while x is not None:
+            if x.type.range is not None:
+                a, b = x.type.range.split("..")
+                return int(a), int(b)
+            x = x.type.target
+        a, b = BUILTIN_RANGE[t.kind].split("..")
+        return int(a), int(b)
+
+    def rich_range(self, t):
+        """a range statement within the parent's range in one of the forms parseChildRanges has to cope with
+        (only on leaf type statements: nothing refers to them, so Equal on texts is not at stake)"""
+        lo, hi = self.parent_bounds(t)
+        return self.rnd.choice([
+            "min..max",
+            "min..%d | %d..max" % (lo + 5, hi - 5),
+            "%d..%d|%d" % (lo + 1, lo + 3, lo + 7),
+            " %d .. %d " % (lo + 2, hi - 2),
+            "%d..%d|%d..%d" % (lo + 1, lo + 3, lo + 4, lo + 6),
+            "%d..%d | %d..%d" % (hi - 1, hi, lo, lo + 1),
+            "%d" % (lo + 9),
+            "%d..%d" % (lo, hi),
+            "min..%d|%d|%d..max" % (lo + 2, lo + 4, lo + 6),
+        ])
 
     # ---- faults
     def sites(self, S):
@@ -611,6 +640,19 @@ class Gen:
             return put(t)
         if kind == "idref-nobase":
             return put(TRef("identityref"))
+        if kind in ("range-widen", "range-bad"):
+            cs = [(s_, h) for s_, h in sites if h.type.kind in INTS and not h.type.members]
+            if not cs:
+                return False
+            sc, holder = rnd.choice(cs)
+            lo, hi = self.parent_bounds(holder.type)
+            if kind == "range-widen":
+                holder.type.range = rnd.choice(["%d..%d" % (lo - 1, hi), "%d..%d" % (lo, hi + 1),
+                                                "%d..%d | %d" % (lo, lo + 3, hi + 2), "%d" % (lo - 3)])
+            else:
+                holder.type.range = rnd.choice(["%d..%d" % (lo + 5, lo + 1), "%d..%d..%d" % (lo, lo + 1, lo + 2),
+                                                "%d.." % lo, "%d | | %d" % (lo, lo + 2)])
+            return True
         raise ValueError(kind)
 
     def case(self, fault=None):
@@ -622,7 +664,7 @@ class Gen:
 
 
 FAULTS = ["unknown-name", "unknown-prefix", "invisible", "cycle", "fd-override", "fd-missing", "fd-range",
-          "fd-other", "dup-enum", "idref-nobase"]
+          "fd-other", "dup-enum", "idref-nobase", "range-widen", "range-bad"]
 
 BAD_TEXT = ("bad.yang", "module bad { prefix b; typedef t0 { type nosuch; } leaf x { type t0; } }\n")
 
@@ -1083,7 +1125,10 @@ def compare(goline, mlline, intent, nbad=0):
     bad = [x for x in leaves if x["type"] in ("PANIC", "FUEL")]
     if bad:
         return "model returned %s" % bad[0]["type"], "broken"
-    ml_err = m["tderr"] or any(x["type"] is None for x in leaves)
+    rngs = {unhex(x["leaf"]): x["rng"] for x in m.get("ranges", [])}
+    if any(v in ("PANIC", "UNMODELLED") for v in rngs.values()):
+        return "model range_of returned %s" % [v for v in rngs.values() if v in ("PANIC", "UNMODELLED")][0], "broken"
+    ml_err = m["tderr"] or m.get("rngerr", False) or any(x["type"] is None for x in leaves)
     if ml_err != go_err:
         return "error presence: impl %s (%s) model %s" % (go_err, run["errors"][:2], ml_err), "errdiff"
     if intent is not None and intent != ml_err:
@@ -1097,6 +1142,8 @@ def compare(goline, mlline, intent, nbad=0):
     for x in leaves:
         name = unhex(x["leaf"])
         want = canon_model(x["type"])
+        if rngs.get(name) is not None:
+            want["range"] = rngs[name]      # integer kinds: the range list composed with C10's parseChildRanges
         if name not in found:
             return "leaf %s is not in the implementation's trees" % name, "missing"
         for gt, dv in found[name]:
@@ -1232,9 +1279,12 @@ def run(res, tier, seed, proof):
     assumptions = [
         "the YANG texts handed to Modules.Parse and the abstract schema handed to the model are renderings of the "
         "same generated schema; scopes are the Typedefer nodes (choice/case/leaf-list wrappers are transparent)",
-        "range/length restrictions are opaque texts in the model ('nearest restriction on the chain'); the generator "
-        "writes texts that narrow with the chain depth and are equal exactly when they denote equal sets (C10 covers "
-        "their meaning)",
+        "range/length restrictions are opaque texts in the resolver model ('nearest restriction on the chain'); on "
+        "typedefs and union members the generator writes texts that narrow with the chain depth and are equal exactly "
+        "when they denote equal sets; for integer kinds the model's range_of (C10's parseChildRanges composed along "
+        "the chain) gives the resolved range list, which is compared with the implementation's, including min/max, "
+        "multi-part, unsorted, adjacent and blank-padded texts on leaf type statements and rejected (widening / "
+        "malformed) ranges; decimal64 ranges and length stay opaque",
         "enum values / bit positions are positions in the member list (C14 covers explicit values); identityref "
         "bases name an identity of the same text (C11)",
         "family 'pinned revision': the expected leaf types are fixed by construction in the generator (pinned import => "
